@@ -29,20 +29,21 @@ JUDGED = {
 }
 
 
-def mc_cfg(T, S, NAt, MaxRes, invs, export=False):
+def mc_cfg(T, S, NAt, MaxRes, invs, export=False, mixed=False):
     lines = ['SPECIFICATION Spec', f'CONSTANTS T = {T}', f' S = {S}', f' NAt = {NAt}', f' MaxRes = {MaxRes}',
-             f' DoExport = {"TRUE" if export else "FALSE"}']
+             f' DoExport = {"TRUE" if export else "FALSE"}', f' Mixed = {"TRUE" if mixed else "FALSE"}']
     lines += [f'INVARIANT {i}' for i in invs]
     lines += ['CHECK_DEADLOCK FALSE', '']
     return '\n'.join(lines)
 
 
 def leg_m(rep: Report, prop: str, instances):
-    for (T, S, NAt, MaxRes) in instances:
-        r = core.model_check('MC_Sites', mc_cfg(T, S, NAt, MaxRes, ALL_INVS[prop]), workers=8, timeout=1500)
-        rep.add_model(f'MC_Sites T={T} S={S} NAt={NAt} MaxRes={MaxRes} invs={",".join(ALL_INVS[prop])}', r)
+    for inst in instances:
+        (T, S, NAt, MaxRes), mixed = inst[:4], (len(inst) > 4 and inst[4] == 'mixed')
+        r = core.model_check('MC_Sites', mc_cfg(T, S, NAt, MaxRes, ALL_INVS[prop], mixed=mixed), workers=8, timeout=1500)
+        rep.add_model(f'MC_Sites T={T} S={S} NAt={NAt} MaxRes={MaxRes}{" Mixed (overlapping spheres: inner site may differ from the site)" if mixed else ""} invs={",".join(ALL_INVS[prop])}', r)
         # vacuity guard: the instance must have enumerated every history
-        per = (1 + 2 * S) ** NAt
+        per = (1 + 2 * S + (S * (S - 1) if mixed else 0)) ** NAt
         expect = sum(per ** t for t in range(T + 1))
         if r.ok and r.distinct != expect:
             raise core.Machinery(f'MC_Sites enumerated {r.distinct} states, expected {expect}')
@@ -247,6 +248,125 @@ def narrow_dtype_cases(rep: Report, n_cases=6, T_long=300):
             rep.violation({'kind': 'leg-B', 'clause': v + '-long-narrow-dtype', 'dtype': rec['dtype'], 'frames': len(rec['arr'])})
     rep.traces += n_cases
     rep.extra['narrow_dtype_long_histories'] = {'cases': n_cases, 'frames': T_long}
+
+
+def many_sites(rep: Report, n=11, window=120, ms=(0,), want=('Hist', 'Events', 'Prev', 'Next', 'Jumps')):
+    """Scale in the number of SITES: n^3 sites (1331 for n = 11); one atom walks down the site indices going from the outer shell of
+    site k straight into the inner part of site k-1, another walks up going from the inner part of k into the outer shell of k+1, a
+    third hops between inner parts k -> k+1 with frames at no site in between.  Every pair of consecutive site indices occurs in every
+    kind of (outer, inner) change, so whatever the code packs, hashes or indexes by site number is exercised for every number up to
+    n^3.  The long run is cut into windows of frames, each analysed by the real code with the full site set and judged by TraceSites."""
+    core.gemdat_src_first()
+    rng = np.random.default_rng(rep.seed + 505)
+    world = gen.grid_world(rng, n)
+    S = n ** 3
+    down, up, hop = [], [], []
+    for k in range(S - 1, 0, -1):
+        down += [[k, -1], [k - 1, k - 1]]
+    for k in range(0, S - 1):
+        up += [[k, k], [k + 1, -1]]
+    for k in range(0, S - 1):
+        hop += [[k, k], [-1, -1]] if k % 3 == 0 else [[k, k], [k, -1]]
+    T = min(len(down), len(up), len(hop))
+    hist = [[down[t], up[t], hop[t]] for t in range(T)]
+    from gemdat import Trajectory
+    full = world.trajectory(hist)
+    pos = np.asarray(full.positions)
+    recs = []
+    b = 600000
+    for lo in range(0, T - 1, window - 1):          # windows overlap by one frame: no change between two frames is left out
+        hi = min(T, lo + window)
+        part = Trajectory(species=full.species, coords=pos[lo:hi], lattice=full.get_lattice(), time_step=full.time_step,
+                          metadata=dict(full.metadata))
+        r_, _ = sites_drive.record_pipeline(b, world, hist[lo:hi], inner_fraction=0.5, ms=ms, ks=(), want=set(want), traj=part)
+        recs += r_
+        b += 1
+    verdicts = core.validate_traces('TraceSites', recs, timeout=1500)
+    rep.add_trace_stats()
+    for rec, (v, act) in zip(recs, verdicts):
+        rep.evaluations += 1
+        rep.nontrivial += 1
+        if v != 'ok':
+            rep.violation({'kind': 'leg-B', 'clause': v + '-many-sites', 'sites': S, 'act': rec['act'],
+                           'record': {k: (rec[k] if k not in ('hist', 'intended', 'arr') else rec[k][:6]) for k in rec}})
+            break
+    rep.traces += b - 600000
+    rep.extra['many_sites'] = {'sites': S, 'frames': T, 'windows': b - 600000}
+
+
+def overlap_cases(rep: Report, prop: str, n_cases, T=40, A=3, ms=(0, 1, 3)):
+    """Overlapping site spheres (an explicit radius above half the distance between two sites): outside the domain of the
+    assignment rule (C02), but whatever states the code records there are a legal input of the event table and the jump
+    classifier: the atom can be recorded at one site while inside the inner sphere of its neighbour.  The recorded states are the
+    input; events / prev / next / jumps are judged by TraceSites against them (Leg M covers the same states: MC_Sites Mixed)."""
+    core.gemdat_src_first()
+    from pymatgen.core import Structure
+    rng = np.random.default_rng(rep.seed + 606)
+    recs, meta, mixed_frames = [], {}, 0
+    want = (ACTS[prop] & {'Hist', 'Events', 'Prev', 'Next', 'Jumps', 'Mono'})
+    for k in range(n_cases):
+        b = 500000 + k
+        f = [0.5, 0.75, 0.5, 0.3][k % 4]
+        world = gen.SiteWorld(rng, ['cubic', 'ortho', 'tric'][k % 3], ['chol', 'pmg', 'rot'][k % 3], N=32, n_sites=3, radius=1.0, inner_fraction=f)
+        base = np.array(world.sites_k) / world.N
+        dpair = float(rng.uniform(1.03, 1.0 + f - 0.06))                            # a fourth site closer than r (1 + f) to site 0:
+        twin = base[0] + world._offset_frac(dpair)                                   # its outer shell reaches into the inner sphere of site 0
+        order = rng.permutation(4)                                                   # which of the overlapping pair comes later varies
+        frac = np.vstack([base, twin[None]])[order]
+        world.structure = Structure(lattice=world.lattice, species=['Li'] * 4, coords=frac, labels=[f'L{i % 2}' for i in range(4)])
+        pair = [int(np.where(order == 0)[0][0]), int(np.where(order == 3)[0][0])]
+        coords = np.zeros((T, A, 3))
+        cur = [None] * A
+        for t in range(T):
+            for a in range(A):
+                if cur[a] is None or rng.random() < 0.45:
+                    r = rng.random()
+                    if r < 0.2:
+                        p = np.array(world.far_k[int(rng.integers(0, len(world.far_k)))]) / world.N
+                    elif r < 0.75:      # in and around the overlapping pair, incl. points inside one inner sphere and the other outer shell
+                        w = int(rng.integers(0, 2))
+                        c = frac[pair[w]]
+                        if rng.random() < 0.5:      # on the axis of the pair: inside the inner sphere of one, in the outer shell of the other
+                            tt = float(rng.uniform(dpair - 1.0 + 0.02, f - 0.02))
+                            p = c + (frac[pair[1 - w]] - c) * (tt / dpair)
+                        else:
+                            p = c + world._offset_frac(float(rng.choice([0.1, 0.3, 0.45, 0.6, 0.8, 0.95])))
+                    else:
+                        c = frac[int(rng.integers(0, 4))]
+                        p = c + world._offset_frac(float(rng.choice([0.1, 0.6, 0.9])))
+                    cur[a] = p
+                coords[t, a] = cur[a] + world._offset_frac(0.01)
+        from gemdat import Trajectory
+        from pymatgen.core import Species
+        traj = Trajectory(species=[Species('Li')] * A, coords=coords, lattice=world.lattice, time_step=1e-15, metadata={'temperature': 300.0})
+        try:
+            r_, tr = record_pipeline_overlap(b, world, traj, f, ms, want)
+        except ValueError as e:
+            if 'need at least one array' in str(e):
+                continue
+            raise
+        H = r_[0]['hist']
+        mixed_frames += sum(1 for row in H for (o, i) in row if i not in (-1, o))
+        meta[b] = {'family': world.family, 'inner_fraction': f, 'overlapping_pair': pair, 'kind': 'overlapping spheres'}
+        recs += r_
+    verdicts = core.validate_traces('TraceSites', recs, timeout=1500)
+    rep.add_trace_stats()
+    for rec, (v, act) in zip(recs, verdicts):
+        if rec['act'] not in JUDGED[prop] and rec['act'] != 'Hist':
+            continue
+        rep.evaluations += 1
+        if _nontrivial(rec):
+            rep.nontrivial += 1
+        if v != 'ok':
+            rep.violation({'kind': 'leg-B', 'clause': v + '-overlapping-spheres', 'record': rec, 'meta': meta.get(rec['b'])})
+    rep.traces += len(meta)
+    rep.extra['overlapping_spheres'] = {'cases': len(meta), 'atom_frames_with_inner_site_other_than_site': mixed_frames}
+    if mixed_frames == 0:
+        raise core.Machinery('overlapping-sphere generator produced no frame with inner site != site')
+
+
+def record_pipeline_overlap(b, world, traj, f, ms, want):
+    return sites_drive.record_pipeline(b, world, None, inner_fraction=f, ms=ms, ks=(), want=set(want), traj=traj, overlap=True)
 
 
 def scale_by_tiling(rep: Report, total_frames=33200, ms=(0, 4)):
